@@ -414,6 +414,7 @@ class Domain:
             res = deque()
             res.appendleft(left_index)
             res.appendleft(right_index)
+            self.max_state_index = max(res)
             return res
 
         # exhaust all possible states and
@@ -438,6 +439,9 @@ class Domain:
             last_size - origin_last_coordinate,
         )
 
+        # largest index of an admissible state: the enumeration of the states must go that far (the frontier states,
+        # extreme along the last axis only, do not always carry the largest index)
+        self.max_state_index = -1
         for ks in lazy_indices_product(all_sizes):
             ks_shifted = tuple(ki - origin_last_coordinate for ki in ks)
             outside_states = []
@@ -451,6 +455,10 @@ class Domain:
                 all_states.append(pairing.pair(state_increment))
 
             if not all(outside_states):
+                self.max_state_index = max(
+                    self.max_state_index,
+                    max(x for x, y in zip(all_states, outside_states) if not y),
+                )
                 frontier_left_index = next(
                     x for x, y in zip(all_states, outside_states) if not y
                 )
@@ -479,7 +487,7 @@ class StatesManager:
         """
         frontier_states = domain.compute_total_number_of_states_and_frontier()
         self.frontier_states_indices = frontier_states
-        self.max_frontier_indices = max(frontier_states)
+        self.max_frontier_indices = max(max(frontier_states), domain.max_state_index)
         self.domain = domain
         self.origin_coordinates = grid.origin_coordinate
         self.grid = grid
